@@ -475,10 +475,27 @@ package types
 //@   requires listener != nil   // registrations hold no nil entries (C20.add.nonnil, C20.once.nonnil)
 //@   modifies nothing
 //@   ensures [C20.remove.exactlyone] result0 == (listener.ptr == targetPtr) && result1 == i && result2 == 1 && len(result3) == 0
+// scan and splice are one critical section: the callback sees the elements, and the splice it asks for is applied, without
+// the write lock being released in between (what the callback returns is arbitrary here; splice is proved for all of it)
 //@ func (*Slice).RangeAndSplice(f, reverse)
-//@   trusted "callback-taking container method (generic callback results are not modelled); the splice it performs is proved on (*Slice).splice"
+//@   props C20
 //@   requires s != nil
+//@   assumes heldmode(s.mu) == 0
+//@   dyncall f noeffect
 //@   modifies *
+//@   loop 1 invariant heldmode(s.mu) == 2 && calls((*sync.RWMutex).Unlock) == 0 && calls((*sync.RWMutex).Lock) == 1
+//@   loop 1 invariant i < len(s.elements)
+//@   loop 2 invariant heldmode(s.mu) == 2 && calls((*sync.RWMutex).Unlock) == 0 && calls((*sync.RWMutex).Lock) == 1
+//@   ensures [C20.ras.lock] heldmode(s.mu) == 0 && calls((*sync.RWMutex).Lock) == 1 && calls((*sync.RWMutex).Unlock) == 1 && calls((*sync.RWMutex).RLock) == 0
+//@   ensures [C20.ras.once] calls((*Slice).splice) <= 1
+//@   callsite f#1
+//@     assert [C20.ras.scanlocked] heldmode(s.mu) == 2 && calls((*sync.RWMutex).Unlock) == 0
+//@   callsite f#2
+//@     assert [C20.ras.scanlocked2] heldmode(s.mu) == 2 && calls((*sync.RWMutex).Unlock) == 0
+//@   callsite (*Slice).splice#1
+//@     assert [C20.ras.atomic] heldmode(s.mu) == 2 && calls((*sync.RWMutex).Unlock) == 0
+//@   callsite (*Slice).splice#2
+//@     assert [C20.ras.atomic2] heldmode(s.mu) == 2 && calls((*sync.RWMutex).Unlock) == 0
 
 // the wrapper completes the caller's own policy object with defaults (or uses the shared default policy read-only when none
 // is given): the shared default is never written, so one server's policy cannot leak into another's
